@@ -111,6 +111,13 @@ class AConf(AObj):
         return f'<conf is_random={self.is_random}>'
 
 
+class ANoneTypeOr(AObj):
+    """``NoneTypeOr[T]``: the tuple ``(NoneType, T)`` used in ``isinstance`` tests."""
+
+    def __getitem__(self, cls):
+        return ('NoneTypeOr', cls)
+
+
 class ACall(AObj):
     def __repr__(self):
         return '<call metadata>'
@@ -162,6 +169,7 @@ class Generator:
             for k, v in env.items():
                 if v is old_ign and not isinstance(old_ign, Unknown):
                     env[k] = ign
+        F.patch_global('beartype._cave._cavemap', 'NoneTypeOr', ANoneTypeOr())
         # anchors
         self.make_check_expr = F.const(CODEMAIN, 'make_check_expr')
         if not isinstance(self.make_check_expr, FuncVal):
@@ -186,6 +194,15 @@ class Generator:
         return v
 
     def _isinstance(self, obj, cls):
+        if isinstance(cls, tuple) and cls[:1] == ('NoneTypeOr',):
+            if obj is None or obj == Sym('builtin', 'None'):
+                return True
+            r = self.f.isinstance_hook(obj, cls[1])
+            if r is None and isinstance(obj, (str, int, tuple, dict, list, bool)) and isinstance(cls[1], Sym):
+                import builtins
+                t = getattr(builtins, cls[1].name, None)
+                return isinstance(obj, t) if isinstance(t, type) else None
+            return r
         if isinstance(obj, AHint):
             if cls == Sym('builtin', 'type'):
                 return obj.is_type
